@@ -3,6 +3,7 @@ import ast
 import json
 import os
 import random
+import re
 import zlib
 import shutil
 import tempfile
@@ -163,15 +164,46 @@ def flat(tree, scope=()):
     return fns, clss
 
 
+def walker_tables():
+    """the regenerated walker tables of this run (lean/PV/Generated/Walkers.lean, written by extract/walkers.go): walker -> followed fields, and the populated fields"""
+    path = os.path.join(C.GEN, "Walkers.lean")
+    if not os.path.exists(path):
+        return None
+    txt = open(path).read()
+    m = re.search(r'^def assigned : List String := \[(.*?)\]$', txt, re.M)
+    blk = re.search(r'^def walkers : List \(String × List String\) := \[\n(.*?)\n\]', txt, re.M | re.S)
+    if not m or not blk:
+        return None
+    assigned = re.findall(r'"([^"]*)"', m.group(1))
+    walkers = {}
+    for row in re.finditer(r'^\s*\("([^"]+)", \[(.*?)\]\)', blk.group(1), re.M):
+        walkers[row.group(1)] = re.findall(r'"([^"]*)"', row.group(2))
+    return {"assigned": assigned, "walkers": walkers}
+
+
 def run(tier, seed, replay=None):
     res = C.Result(PID, tier, seed)
     rng = random.Random(seed * 1000003 + 4)
     ps = C.prove(PID)
-    C.proof_coverage(res, ps, "cd /verif/lean && lake build PV.Properties.C04 && #print axioms (audit)")
+    C.proof_coverage(res, ps, "cd /verif/lean && lake build PV.Properties.C04 PV.Properties.C04x && #print axioms (audit)")
+    wt = walker_tables()
+    if wt is None:
+        # extract/walkers.go removes the table when a pinned walker is missing; the Lean build of C04x has failed with it
+        if ps.ok:
+            ps.ok = False
+        ps.broken.append("walker tie: lean/PV/Generated/Walkers.lean was not regenerated (see EXTRACT-ERROR)")
+    walker_cov = {
+        "walker_fields_pinned": sum(len(v) for v in wt["walkers"].values()) if wt else 0,
+        "walkers_pinned": len(wt["walkers"]) if wt else 0,
+        "builder_assigned_fields": len(wt["assigned"]) if wt else 0,
+        "walker_fields_listed_missing": sum(len([f for f in wt["assigned"] if f not in v]) for v in wt["walkers"].values()) if wt else 0,
+    }
     res.assumptions += [
         "CPython's `ast` (lineno/end_lineno of def/class statements, decorators excluded) is the reference list of definitions",
         "the registry model (map keyed by dotted name, later registration wins) is compared with the real complexity section on every generated module",
         "`__main__` (the module-level pseudo function in the complexity section) is not a definition and is ignored",
+        "walker tie: extract/walkers.go reads which parser.Node fields each pinned walker follows from the Go source (syntactic + go/types, flow-insensitive); "
+        "the classification of the fields a walker does not follow (PV/Properties/WalkersExpected.lean) is a reviewed text, not a theorem",
     ]
     nmod = (60 if tier == "quick" else 500) * (1 if ps.ok else 6)
     mods = []
@@ -294,4 +326,6 @@ def run(tier, seed, replay=None):
         "traces_validated_against_impl": len(mods),
         "distribution": hist,
     })
+    # regenerated tie for the AST walkers (C04_walkers_facts, C04_walkers_complete_up_to_listed): number of (walker, followed field) pairs pinned in this run
+    res.coverage.update(walker_cov)
     return res.finish("proof")
